@@ -177,6 +177,12 @@ def read_calls(log):
     return [[c[0], c[1]] for c in log.read() if c[2] == "call"]
 
 
+def read_events(log):
+    """the log in the order it was written (single O_APPEND writes: the real-time order of the run, also across pool threads): every
+    invocation ENTERED ("call") and every invocation that RETURNED its result ("done"; a raising invocation has no "done" record)"""
+    return [[c[0], c[1], c[2]] for c in log.read() if c[2] in ("call", "done")]
+
+
 def _guarded(fn, obs):
     """Run `fn` under the watchdog; classify how it ended."""
     signal.signal(signal.SIGALRM, _alarm)
@@ -259,6 +265,8 @@ def map_injection(desc, inj, base, n):
         try:
             run_map_once(p, desc, step.get("mode", inj["mode"]), storage, folder, obs)
             obs["calls"] = read_calls(log)
+            if folder is not None and obs["outcome"] == "raised":
+                obs["events"] = read_events(log)
             if obs["outcome"] != "hang":
                 try:
                     obs["gens"] = [[f.__name__ for f in g] for g in p.topological_generations.function_lists]
